@@ -600,6 +600,33 @@ def r5_accept_and_reread(rep, src, tier):
             if got != [['Alpha', 'Field', 'Omega']]:
                 bad['reread'] = bad['reread'] or ('p["Field"] = %r is accepted; the dump %r read back (%s) gives %s, not one paragraph with the fields Alpha, Field, Omega' % (
                     value, text, setting, got if isinstance(got, str) else 'the paragraphs %r' % (got,)))
+    # ... and on a paragraph that was made from an input without any field (an empty text, an empty list of lines, blank lines only):
+    # the object is a paragraph like any other -- what is refused elsewhere is refused here
+    for made_from, arg in (('the empty text', ''), ('an empty list of lines', []), ('a blank line', ['\n'])):
+        for value in ('text\n', 'one\nInjected: yes', 'one\n\n two', 'fine\n indented'):
+            n += 1
+            lines = value.split('\n')
+            must_reject = value.endswith('\n') or any(l_ == '' or l_[0] not in ' \t' for l_ in lines[1:])
+            heap, it = world()
+            p = heap.alloc('Deb822', {})
+            try:
+                it.call(H.Closure(need['__init__'].node, {}, p, need['__init__'].cls), [heap.new_list(list(arg)) if isinstance(arg, list) else arg])
+                it.call(H.Closure(fset.node, {}, p, fset.cls), ['Alpha', 'x'])
+                before = entries(heap, p)
+                try:
+                    it.call(H.Closure(fset.node, {}, p, fset.cls), ['Field', value])
+                    exc = None
+                except H.Raised as x:
+                    exc = x.exc
+            except H.Raised as x:
+                bad['other'] = bad['other'] or 'a paragraph made from %s: raises %s (line %d)' % (made_from, x.exc, x.lineno)
+                continue
+            if must_reject and exc is None:
+                bad['reject'] = bad['reject'] or 'p = Deb822(<%s>); p["Field"] = %r is accepted (the same value is refused on a paragraph made without input)' % (made_from, value)
+            elif must_reject and (not exc.endswith('ValueError') or entries(heap, p) != before):
+                bad['unchanged'] = bad['unchanged'] or 'p = Deb822(<%s>); p["Field"] = %r raises %s and leaves %r' % (made_from, value, exc, entries(heap, p))
+            elif not must_reject and exc is not None and not exc.endswith('ValueError'):
+                bad['other'] = bad['other'] or 'p = Deb822(<%s>); p["Field"] = %r raises %s' % (made_from, value, exc)
     rep.analysed['paths'] += n
     if n_acc < 20 or n_rej < 20:
         raise AnalysisError('deb822:Deb822.__setitem__: %d of %d values accepted, %d refused: the family does not exercise both sides' % (n_acc, n, n_rej))
